@@ -30,12 +30,19 @@ def float_pt(rng, d, N, maxbond, rank3, transforms):
     return IntPT(d, mpos, caps, tin, tout)
 
 
-def impl_states(d, pts, props, rho0, N, ctrl=None, record_all=True, start_time=0.0):
+def impl_states(d, pts, props, rho0, N, ctrl=None, record_all=True, start_time=0.0, built=None):
     sysm = InjSystem(d, props)
     dyn = quiet(oqupy.compute_dynamics, sysm, initial_state=np.array(rho0), dt=0.1, num_steps=N, start_time=start_time,
-                process_tensor=[p.build() for p in pts], control=ctrl, record_all=record_all,
+                process_tensor=built if built is not None else [p.build() for p in pts], control=ctrl, record_all=record_all,
                 progress_type="silent")
     return [np.array(s).reshape(-1) for s in dyn.states]
+
+
+def look_at(pt):
+    """the read-only accessors of a process tensor (they must not change what it does)"""
+    for k in range(len(pt)):
+        _ = (pt.get_mpo_tensor(k, transformed=False), pt.get_mpo_tensor(k), pt.get_mpo_tensor(k, transformed=False), pt.get_cap_tensor(k))
+    _ = (pt.get_cap_tensor(len(pt)), pt.get_bond_dimensions(), len(pt), str(pt), pt.dt, pt.transform_in, pt.transform_out, pt.hilbert_space_dimension)
 
 
 def search(chk, n):
@@ -76,7 +83,24 @@ def search(chk, n):
                 table[k] = rand_complex(rng, (d2, d2), .6)
                 ctrl.add_single(k, table[k].copy(), post=side)
             want = ref_dynamics(d2, envs, pre, post, props, rho0.reshape(-1), N)
-        got = impl_states(d, pts, props, rho0, N, ctrl=ctrl, record_all=rec_all, start_time=start_t)
+        # the process tensors as objects with a history: every second case they are looked at through their read-only accessors
+        # first; every third case one of them has already been used and one of its tensors was replaced afterwards
+        built = [p.build() for p in pts]
+        history = []
+        if it % 3 == 2 and N >= 1:
+            j_ = rng.randrange(len(pts))
+            k_ = rng.randrange(N)
+            final_tensor = pts[j_].mpos[k_]
+            other = rand_complex(rng, final_tensor.shape)
+            built[j_].set_mpo_tensor(k_, other)                 # first a different tensor at step k_ ...
+            quiet(oqupy.compute_dynamics, InjSystem(d, props), initial_state=np.array(rho0), dt=0.1, num_steps=N, process_tensor=built, progress_type="silent")
+            built[j_].set_mpo_tensor(k_, final_tensor)          # ... then the one the oracle knows
+            history.append(f"tensor {k_} of environment {j_} replaced after a first computation")
+        if it % 2 == 1:
+            for b_ in built:
+                look_at(b_)
+            history.append("read-only accessors called before the computation")
+        got = impl_states(d, pts, props, rho0, N, ctrl=ctrl, record_all=rec_all, start_time=start_t, built=built)
         if not rec_all:
             want = want[-1:]
         chk.search_cases += 1
@@ -85,7 +109,8 @@ def search(chk, n):
         if len(got) != len(want) or err > 1e-9:
             chk.fail("joint-evolution", f"compute_dynamics deviates from the dense joint evolution (rel {err:.2e})"
                      + (f"; controls: pre at steps {sorted(pre)}, post at steps {sorted(post)}" if ctrl is not None else ""),
-                     {"d": d, "N": N, "nenv": nenv, "seed": chk.seed, "iteration": it, "pre_controls": sorted(pre), "post_controls": sorted(post), "start_time": start_t})
+                     {"d": d, "N": N, "nenv": nenv, "seed": chk.seed, "iteration": it, "pre_controls": sorted(pre), "post_controls": sorted(post), "start_time": start_t,
+                      "process_tensor_history": history})
         # order independence
         if nenv >= 2:
             perm = list(range(nenv))
